@@ -117,7 +117,7 @@ package server
 //@ func quorumAckTracker.WaitForCommitOffset
 //@ trusted
 //@ ensures result == nil ==> q.requiredAcks == 0 || q.commitOffset.v >= offset
-//@ preserves fields(quorumAckTracker), fields(util.BitSet), fields(map[int64]*server/util.BitSet), fields(cursorAcker)
+//@ preserves fields(quorumAckTracker), fields(util.BitSet), fields(map[int64]*server/util.BitSet), fields(cursorAcker), fields(leaderController)
 //@ note trusted: blocks on a channel fed by a concurrent.Once callback; OnComplete is invoked only with commit >= offset (asserted at both invocation sites: WaitForCommitOffsetAsync, notifyCommitOffsetAdvanced) and commit never decreases (ack, AdvanceHeadOffset); channels and goroutines are outside the verified subset
 
 // ---------------------------------------------------------------- secondary indexes (C15)
@@ -452,3 +452,41 @@ package server
 //@ ensures err == nil && (value == nil || value.SessionId == nil) ==> forall k string :: ghset(present, batch, k) <==> old(ghset(present, batch, k))
 //@ ensures err == nil && value != nil && value.SessionId != nil ==> forall k string :: k != shadowKey(*value.SessionId, key) ==> (ghset(present, batch, k) <==> old(ghset(present, batch, k)))
 //@ modifies ghset(present, batch), ghset(deleted, batch)
+
+// ---------------------------------------------------------------- becoming leader (C05)
+
+//@ impl QuorumAckTracker *quorumAckTracker
+
+//@ func leaderController.addFollower
+//@ trusted
+//@ modifies *
+//@ preserves lc.term, lc.status, lc.quorumAckTracker, lc.leaderElectionHeadEntryId, lc.log, lc.wal, lc.db, lc.ctx, lc.sessionManager
+//@ note trusted: starts the follower cursor (goroutines, streams); truncateFollowerIfNeeded inside it is verified
+
+//@ func leaderController.applyAllEntriesIntoDB
+//@ trusted
+//@ modifies *
+//@ preserves lc.term, lc.status, lc.log, lc.leaderElectionHeadEntryId
+//@ note trusted: reads the log forward and applies every entry (db.ProcessWrite is verified per entry)
+
+//@ func NewSessionManager
+//@ trusted
+//@ modifies nothing
+//@ ensures result != nil
+
+// BecomeLeader: a node starts leading only if it is fenced in exactly the requested
+// term; it does not change its term; it reports success — and only then serves as
+// LEADER — after the quorum tracker created for this term has seen the whole of its log
+// committed and every entry has been applied.
+//
+//@ func leaderController.BecomeLeader(lc, ctx, req) (res, err)
+//@ property C05 C04
+//@ holdslock
+//@ requires req != nil && 1 <= req.ReplicationFactor && req.ReplicationFactor <= 17 && lc.wal != nil && lc.db != nil && lc.log != nil && lc.ctx != nil
+//@ assume at call ReadCommitOffset#0: result1 == nil ==> -1 <= result0 && result0 <= lc.leaderElectionHeadEntryId.Offset && lc.leaderElectionHeadEntryId.Offset < 4611686018427387904 because "the stored commit offset never exceeds the log head of the same node (entries are applied from the log: C07/C09), offsets are below 2^62"
+//@ loop 0 invariant lc.term == old(lc.term) && lc.status == 1 && lc.quorumAckTracker != nil && lc.leaderElectionHeadEntryId != nil && lc.log != nil
+//@ ensures lc.term == old(lc.term)
+//@ ensures err == nil ==> old(lc.status) == 1 && old(req.Term) == lc.term && lc.status == 3 && res != nil
+//@ ensures (old(lc.status) != 1 || old(req.Term) != old(lc.term)) ==> err != nil && lc.status == old(lc.status) && lc.quorumAckTracker == old(lc.quorumAckTracker) && lc.replicationFactor == old(lc.replicationFactor)
+//@ ensures err != nil ==> lc.status == old(lc.status)
+//@ modifies *
